@@ -57,6 +57,7 @@ R3 = REG.add(Contract(
     local_types={"contents": LIST(STR)}, reveal=("io",), loop_fields=["$cursor"], modifies={"$cursor": None},
     verify_with=block_verifier("las.LASFile.read", "file_obj.seek(k)", 'sct_contents = "\\n".join(contents)', "las", occurrence=0),
     properties=("C05", "C09"), noraise=True))
+R3.block_outputs = {"sct_contents": STR, "line_no": INT, "line": STR}
 
 
 # ---------------------------------------------------------------- R1: steering update
@@ -82,18 +83,48 @@ R1.note = ("sct_items.VERS is attribute access through SectionItems.__getattr__ 
 
 
 # ---------------------------------------------------------------- K2: section kind from the title
+re_hit = z3.Function("re_search_hits", PyObj, S, B)      # truthiness of re.search(pattern, string): a function of its arguments
+
+
+def _two(title):
+    st = strip_nl(strip(title))
+    return st, upper(z3.SubString(st, 0, 2))
+
+
+def is_data(title):
+    st, two = _two(title)
+    return z3.Or(two == z3.StringVal("~A"), z3.Contains(st, z3.StringVal("~Log_Data")))
+
+
+def is_other(title):
+    st, two = _two(title)
+    return z3.And(z3.Not(is_data(title)), two == z3.StringVal("~O"))
+
+
+def is_las3_data(title):
+    st, two = _two(title)
+    return z3.And(z3.Not(is_data(title)), z3.Not(is_other(title)), re_hit(obj_of_str(z3.StringVal("_Data")), st))
+
+
+def is_items(title):
+    return z3.And(z3.Not(is_data(title)), z3.Not(is_other(title)), z3.Not(is_las3_data(title)))
+
+
 def k2_post(c):
-    st = strip_nl(strip(c.a["section_title"].t))
-    two = upper(z3.SubString(st, 0, 2))
+    title = c.a["section_title"].t
     res = c.res.t
-    return [("~a/~A-is-data", z3.Implies(two == z3.StringVal("~A"), res == z3.StringVal("Data"))),
-            ("~o/~O-is-free-text", z3.Implies(z3.And(two == z3.StringVal("~O"), z3.Not(z3.Contains(st, z3.StringVal("~Log_Data")))),
-                                              res == z3.StringVal("Header (other)"))),
-            ("result-is-one-of-four", z3.Or([res == z3.StringVal(x) for x in ("Data", "Header (other)", "Las3_Data", "Header items")]))]
+    return [("Data-exactly-for-~a/~A-and-~Log_Data-titles", (res == z3.StringVal("Data")) == is_data(title)),
+            ("free-text-exactly-for-other-~o/~O-titles", (res == z3.StringVal("Header (other)")) == is_other(title)),
+            ("Las3_Data-exactly-for-other-titles-with-_Data", (res == z3.StringVal("Las3_Data")) == is_las3_data(title)),
+            ("header-items-otherwise", (res == z3.StringVal("Header items")) == is_items(title))]
 
 
 REG.add(Contract("lib:re.search", params={"pattern": "any", "string": "any"}, returns=OBJ, assumed=True, noraise=True,
-                 note="re.search with a constant pattern does not raise", properties=("C05",)))
+                 ensures=lambda c: ([("T-re:the-outcome-is-a-function-of-pattern-and-string",
+                                      truthy(c.res.t) == re_hit(c.eng.to_obj(c.a["pattern"]), c.a["string"].t))]
+                                    if isinstance(c.a["string"], VStr) else []),
+                 note="re.search with a constant pattern does not raise; whether it matches is a function of (pattern, string)",
+                 properties=("C05",)))
 
 K2 = REG.add(Contract(
     "reader.determine_section_type", params={"section_title": STR},
@@ -447,3 +478,223 @@ R2 = REG.add(Contract(
     modifies={f: (lambda c, r: r == c.a["self"].t) for f in ("$sec_Version", "$sec_Well", "$sec_Curves", "$sec_Parameter", "$sec_custom")},
     verify_with=block_verifier("las.LASFile.read", "if (", "self.sections[section_title[1:]] = sct_items", "las", occurrence=0),
     properties=("C05",), noraise=True, merge=False))
+
+
+# ---------------------------------------------------------------- R6: engine dispatch with fallback
+normal_gen = z3.Function("normal_engine_columns", I, I, PyObj)      # (title line, n_columns) -> generator of columns
+
+NORMAL = REG.add(Contract(
+    "reader.read_data_section_iterative_normal_engine",
+    params={"file_obj": FILE, "line_nos": TUPLE(INT, INT), "regexp_subs": OBJ, "value_null_subs": OBJ, "ignore_data_comments": OBJ,
+            "n_columns": INT, "dtypes": OBJ, "line_splitter": OBJ},
+    requires=lambda c: [("cursor-at-the-section-title", cursor(c) == c.a["line_nos"].items[0].t)],
+    ensures=lambda c: [("columns-of-this-section", c.res.t == normal_gen(c.a["line_nos"].items[0].t, c.a["n_columns"].t))],
+    returns=OBJ, assumed=True, noraise=True,
+    note="generator function: creating the generator runs no code; its body starts by reading the title line from the CURRENT "
+         "position (so the cursor must be at the section title) and then runs the token generator verified as K5a; reshape/astype are numpy",
+    properties=("C02", "C07", "C05")))
+
+
+def r6_post(c):
+    t = c.a["first_line"].t
+    gen = c.v("curves_data_gen").t
+    nrm = normal_gen(t, c.a["reader_n_columns"].t)
+    npy = np_rows(t + 1, c.a["last_line"].t - t)
+    return [("the-data-comes-from-this-section-by-the-chosen-engine-or-its-fallback", z3.Or(gen == nrm, gen == npy)),
+            ("normal-engine-requested-means-normal-engine-used", z3.Implies(c.a["engine"].t == z3.StringVal("normal"), gen == nrm))]
+
+
+R6 = REG.add(Contract(
+    "las.LASFile.read#R6-engine-dispatch",
+    params={"self": API.LAS, "engine": STR, "file_obj": FILE, "k": INT, "first_line": INT, "last_line": INT, "regexp_subs": OBJ,
+            "value_null_subs": OBJ, "ignore_data_comments": OBJ, "reader_n_columns": INT, "dtypes": OBJ, "line_splitter": OBJ, "i": INT},
+    requires=lambda c: [("offset-is-the-title's", c.a["k"].t == cookie(c.a["first_line"].t)),
+                        ("cursor-at-the-section-title", cursor(c) == c.a["first_line"].t),
+                        ("engine-is-numpy-or-normal", z3.Or(c.a["engine"].t == z3.StringVal("numpy"), c.a["engine"].t == z3.StringVal("normal"))),
+                        ("title-in-file", z3.And(0 <= c.a["first_line"].t, c.a["first_line"].t < NLINES))],
+    ensures=r6_post, ghost_init=file_init(), reveal=("io",), modifies={"$cursor": None},
+    loop_types={"curves_data_gen": OBJ},
+    verify_with=block_verifier("las.LASFile.read", 'if engine == "numpy":', 'if engine == "normal":', "las"),
+    properties=("C02", "C07"), may_raise=["LASDataError"], merge=False, free_default=True, prune=True))
+
+
+# ---------------------------------------------------------------- K4 verified: inspect_data_section (replaces the assumed contract when it verifies)
+ws_count = z3.Function("whitespace_token_count", S, I)          # len(sow_regex.findall(line))
+dcount = z3.Function("data_lines_before", I, I)
+
+
+def ws_tokens(c):
+    ln = c.a["string"].t
+    jj = z3.Int("wj")
+    return VList(ws_count(ln), [z3.Lambda([jj], z3.Const("ws_tok", PyObj))], OBJ)
+
+
+REG.add(Contract("lib:sow_regex.findall", params={"string": STR}, returns=ws_tokens, assumed=True, noraise=True,
+                 note="T-re: the module-level whitespace/quote tokeniser; only the number of matches is used", properties=("C07", "C01", "C09")))
+
+
+def k4_defs(c):
+    t, e = c.a["line_nos"].items[0].t, c.a["line_nos"].items[1].t
+    idc = c.a["ignore_data_comments"].t
+    subs = c.a["regexp_subs"]
+    sl = lambda kk: RH.sline(kk)
+    isdata = lambda kk: z3.And(z3.Length(sl(kk)) > 0, z3.Not(z3.PrefixOf(idc, sl(kk))))
+    ntok = lambda kk: ws_count(foldsub(subs.n, sl(kk)))
+    return t, e, sl, isdata, ntok
+
+
+def k4_init(c, st):
+    file_init()(c, st)
+    t, e, sl, isdata, ntok = k4_defs(c)
+    subs = c.a["regexp_subs"]
+    x, j = z3.String("fs_x"), z3.Int("fs_j")
+    st.assume(z3.ForAll([x], foldsub(0, x) == x, patterns=[foldsub(0, x)]))
+    step = z3.ForAll([j, x], z3.Implies(z3.And(0 <= j, j < subs.n),
+                                        foldsub(j + 1, x) == resub(z3.Select(subs.cols[0], j), z3.Select(subs.cols[1], j), foldsub(j, x))),
+                     patterns=[foldsub(j + 1, x)])
+    st.assume(step); st.ghost["ax:foldsub-step"] = step
+    st.assume(dcount(t + 1) == 0)
+    dstep = z3.ForAll([k], z3.Implies(k > t, dcount(k + 1) == dcount(k) + z3.If(isdata(k), 1, 0)), patterns=[dcount(k + 1)])
+    st.assume(dstep); st.ghost["ax:dcount-step"] = dstep
+    st.assume(z3.ForAll([x], ws_count(x) >= 0, patterns=[ws_count(x)]))
+
+
+def k4_counts(c, upto, counts):
+    t, e, sl, isdata, ntok = k4_defs(c)
+    return [("one-count-per-data-line", z3.And(counts.n == dcount(upto), counts.n >= 0)),
+            ("counts-are-the-token-counts-of-the-data-lines-in-order", forall(k, z3.Implies(
+                z3.And(t < k, k < upto, isdata(k)), z3.And(0 <= dcount(k), dcount(k) < counts.n,
+                                                            z3.Select(counts.cols[0], dcount(k)) == ntok(k)))))]
+
+
+def k4_outer(c):
+    t, e, sl, isdata, ntok = k4_defs(c)
+    cur = t + 1 + c.i
+    return [("cursor-start", c.x["cur0"] == t + 1), ("line_no", c.v("line_no").t == t + c.i),
+            ] + k4_counts(c, cur, c.v("item_counts"))
+
+
+def k4_inner(c):
+    t, e, sl, isdata, ntok = k4_defs(c)
+    ln = c.v("line_no").t
+    return [("line-is-the-fold", c.v("line").t == foldsub(c.i, sl(ln))), ("this-is-a-data-line", z3.And(t < ln, isdata(ln))),
+            ("cursor", cursor(c) == ln + 1)] + k4_counts(c, ln, c.v("item_counts"))
+
+
+def k4_post(c):
+    t, e, sl, isdata, ntok = k4_defs(c)
+    n = c.res.items[0].t
+    return [("a-column-count-is-reported-only-when-every-sampled-data-line-has-that-many-tokens", z3.Implies(n != -1, forall(k, z3.Implies(
+        z3.And(t < k, k < cursor(c), isdata(k)), ntok(k) == n))))]
+
+
+K4V = REG.add(Contract(
+    "reader.inspect_data_section", case="verified",
+    params={"file_obj": FILE, "line_nos": TUPLE(INT, INT), "regexp_subs": LIST(TUPLE(OBJ, OBJ)), "ignore_data_comments": STR},
+    requires=lambda c: [("cursor-at-the-section-title", cursor(c) == c.a["line_nos"].items[0].t),
+                        ("section-in-file", z3.And(0 <= c.a["line_nos"].items[0].t, c.a["line_nos"].items[0].t < NLINES))],
+    ensures=k4_post, loops={0: k4_outer, 1: k4_inner},
+    loop_hints={0: lambda c: [(c.g("ax:dcount-step"), [c.a["line_nos"].items[0].t + 1 + c.i])],
+                1: lambda c: [(c.g("ax:foldsub-step"), [c.i, RH.sline(c.v("line_no").t)])]},
+    local_types={"item_counts": LIST(INT), "hyphen_exists": LIST(INT)},
+    ghost_init=k4_init, reveal=("io", "num"), loop_fields=["$cursor"], modifies={"$cursor": None},
+    abstract_exprs=True, only_on_request=True, break_cut={0: ["if (line_no == line_nos[1])"]},
+    properties=("C07", "C01", "C09"), may_raise=["Any"]))
+K4V.note = "the final filtering of regexp_subs (list comprehension with `not in`) is abstracted to an opaque value"
+
+
+# ---------------------------------------------------------------- R0: the section loop of LASFile.read as a whole
+# Composition of K1 (the section table), K2 (kind of a section), K3 (header items), and the blocks R1, R2, R3 used
+# through their contracts: every section found is dispatched exactly as its kind demands - no section is skipped,
+# the loop is left only by exhaustion, every data section is remembered in file order.
+from . import reader_sections as RS
+
+drank = z3.Function("data_sections_before", I, I)
+jj = z3.Int("jj")
+
+
+def r0_titles(c):
+    sp = c.a["section_positions"]
+    return sp, (lambda x: RS.sel(sp, 3, x))
+
+
+def r0_pre(c):
+    sp, title = r0_titles(c)
+    return RS.sections_post(sp) + [
+        ("every-title-has-a-letter-after-the-tilde", forall(jj, z3.Implies(z3.And(0 <= jj, jj < sp.n), z3.Length(title(jj)) >= 2))),
+        ("mnemonic_case-is-one-of-the-three", z3.Or([c.a["mnemonic_case"].t == z3.StringVal(x) for x in ("upper", "lower", "preserve")])),
+        ("no-data-section-remembered-yet", z3.And(c.a["data_section_indices"].n == 0, c.a["las3_data_section_indices"].n == 0)),
+    ]
+
+
+def r0_init(c, st):
+    file_init()(c, st)
+    sp, title = r0_titles(c)
+    st.assume(drank(0) == 0)
+    step = z3.ForAll([jj], z3.Implies(jj >= 0, drank(jj + 1) == drank(jj) + z3.If(is_data(title(jj)), 1, 0)), patterns=[drank(jj + 1)])
+    st.assume(step); st.ghost["ax:drank-step"] = step
+    st.assume(z3.ForAll([jj], z3.Implies(jj >= 0, drank(jj) >= 0), patterns=[drank(jj)]))
+    for g in ("$parsed", "$routed", "$other_read", "$other_stored"):
+        st.ghost[g] = z3.K(I, z3.BoolVal(False))
+
+
+def _mark(g):
+    def hook(c, st):
+        st.ghost[g] = z3.Store(st.ghost[g], st.env["i"].t, z3.BoolVal(True))
+    return hook
+
+
+def r0_facts(c, upto):
+    sp, title = r0_titles(c)
+    dsi = c.v("data_section_indices")
+    return [
+        ("one-remembered-index-per-data-section", dsi.n == drank(upto)),
+        ("data-sections-are-remembered-in-file-order", forall(jj, z3.Implies(
+            z3.And(0 <= jj, jj < upto, is_data(title(jj))), z3.And(0 <= drank(jj), drank(jj) < dsi.n, z3.Select(dsi.cols[0], drank(jj)) == jj)))),
+        ("only-data-sections-are-remembered", forall(q, z3.Implies(z3.And(0 <= q, q < dsi.n), z3.And(
+            0 <= z3.Select(dsi.cols[0], q), z3.Select(dsi.cols[0], q) < upto, is_data(title(z3.Select(dsi.cols[0], q))))))),
+        ("every-header-item-section-is-parsed-from-its-own-lines-and-stored", forall(jj, z3.Implies(
+            z3.And(0 <= jj, jj < upto, is_items(title(jj))), z3.And(z3.Select(c.g("$parsed"), jj), z3.Select(c.g("$routed"), jj))))),
+        ("every-free-text-section-is-read-from-its-own-lines-and-stored", forall(jj, z3.Implies(
+            z3.And(0 <= jj, jj < upto, is_other(title(jj))), z3.And(z3.Select(c.g("$other_read"), jj), z3.Select(c.g("$other_stored"), jj))))),
+    ]
+
+
+def r0_inv(c):
+    return r0_facts(c, c.i)
+
+
+def r0_post(c):
+    return r0_facts(c, c.a["section_positions"].n)
+
+
+def r0_blocks(E):
+    out = []
+    for bc, start, end, hook in ((R1, 'if section_title[1].upper() == "V":', 'if section_title[1].upper() == "W":', None),
+                                 (R2, "if (", "self.sections[section_title[1:]] = sct_items", _mark("$routed")),
+                                 (R3, "file_obj.seek(k)", 'sct_contents = "\\n".join(contents)', _mark("$other_read"))):
+        blk, _ = BL.find_block(E, "las.LASFile.read", start, end, 0)
+        out.append((bc, blk, hook))
+    return out
+
+
+R0_FIELDS = ["$cursor", "$len", "$items", "$alloc", "$line", "mnemonic", "original_mnemonic", "unit", "value", "descr", "data", "$cls",
+             "mnemonic_transforms", "section_name2", "$sec_Version", "$sec_Well", "$sec_Curves", "$sec_Parameter", "$sec_custom", "$sec_Other", "$sec_text"]
+
+R0 = REG.add(Contract(
+    "las.LASFile.read#R0-section-loop",
+    params={"self": API.LAS, "file_obj": FILE, "section_positions": LIST(RS.SECTION_T),
+            "provisional_version": OBJ, "provisional_wrapped": OBJ, "provisional_null": OBJ, "provisional_delimiter": OBJ,
+            "ignore_header_errors": BOOL, "mnemonic_case": STR, "ignore_comments": CONST(("#",)),
+            "data_section_indices": LIST(INT), "las3_data_section_indices": LIST(INT),
+            "las3_section_indicators": VCList([VStr(z3.StringVal(x)) for x in ("_DATA", "_PARAMETER", "_DEFINITION")])},
+    requires=r0_pre, ensures=r0_post, loops={0: r0_inv}, ghost_init=r0_init,
+    loop_hints={0: lambda c: [(c.g("ax:drank-step"), [c.i])]},
+    hooks={"sct_items = reader.parse_header_items_section(": _mark("$parsed"),
+           'if section_title[1].upper() == "O":': _mark("$other_stored")},
+    use_blocks=r0_blocks, loop_fields=R0_FIELDS, loop_ghost={0: ["$parsed", "$routed", "$other_read", "$other_stored"]},
+    modifies={f: None for f in R0_FIELDS if f not in ("$alloc", "$cls")},
+    verify_with=block_verifier("las.LASFile.read", "for i, (k, first_line, last_line, section_title) in enumerate(", "for i, (k, first_line", "las"),
+    reveal=("io",), may_raise=["Any"], free_default=True, abstract_exprs=True, properties=("C05",)))
+R0.note = ("the blocks R1 (steering), R2 (routing) and R3 (~Other lines) are used through their contracts; ghost marks record that the "
+           "statement was reached in iteration i; las3 handling is not specified")
